@@ -22,7 +22,8 @@ ops:  ["c", hid, skey, name, {"wids":[..], "uargs":[..], "uarg":x, "beh":[ops], 
 
 Two further families have their own small interpreters: class-definition histories for the MetaSignals metaclass
 (`run_metaclass_program`: which names each class accepts afterwards) and the connections the library makes and drops
-itself (`run_setter_history`: `ListBox.body = ...`; `run_mainloop_history`: MainLoop.start()/stop()).
+itself (`run_setter_history`: `ListBox.body = ...`; `run_mainloop_history`: MainLoop.start()/stop(); `run_ctor_wiring`: the
+callback + user_data parameters of the Button / CheckBox / RadioButton constructors).
 """
 from __future__ import annotations
 
@@ -1116,6 +1117,133 @@ def mainloop_histories(quick):
 
 
 # ----------------------------------------------------------------------------------------------
+# connections made by the library's constructors: Button(on_press=, user_data=), CheckBox / RadioButton(on_state_change=, user_data=)
+
+_UD = {"absent": None, "None": None, "0": 0, "''": "", "False": False, "()": (), "0.0": 0.0, "'x'": "x", "[1]": [1], "[]": [], "1": 1}
+
+
+def ctor_wiring_cases():
+    for wname in ("button", "checkbox", "radio"):
+        for ud in _UD:
+            for with_cb in (True, False):
+                for how in range(3):
+                    for positional in (False, True):
+                        for disc in (("same",) if not with_cb else ("same", "none", "with-None") if ud in ("absent", "None") else ("same", "without")):
+                            if not with_cb and (how or positional):
+                                continue
+                            yield {"widget": wname, "user_data": ud, "callback": with_cb, "emit": how, "positional": positional, "disconnect": disc}
+
+
+def run_ctor_wiring(c):
+    """The documentation of the three constructors: the callback given is connected as by
+    connect_signal(widget, name, callback, user_data); callback is callback(widget, [new_state,] [user_data]);
+    unregister with disconnect_signal(widget, name, callback, user_data).  So (statement: "with the ... user arguments given
+    at connect time followed by the emitted arguments" / "handlers already disconnected when the emit starts are never
+    called"): every emit calls the callback exactly once, before a handler connected later, with user_data appended for
+    EVERY user_data but None (None = the documented "no user data"); nothing is called during construction; after the
+    documented disconnect it is never called again and the later handler still is; a disconnect with OTHER arguments
+    (without the user_data that was given) "does nothing"; without a callback nothing is connected."""
+    log = []
+    ud = _UD[c["user_data"]]
+    given = c["user_data"] != "absent"
+    has_ud = ud is not None
+
+    def handler(*a):
+        log.append(("cb", a))
+
+    def later(*a):
+        log.append(("later", a))
+
+    cb = handler if c["callback"] else None
+    wn = c["widget"]
+    name = "click" if wn == "button" else "change"
+    group = []
+    if wn == "button":
+        if c["positional"]:
+            w = urwid.Button("ok", cb, ud) if given else urwid.Button("ok", cb)
+        else:
+            w = urwid.Button("ok", on_press=cb, user_data=ud) if given else urwid.Button("ok", on_press=cb)
+    elif wn == "checkbox":
+        if c["positional"]:
+            w = urwid.CheckBox("x", False, False, cb, ud) if given else urwid.CheckBox("x", False, False, cb)
+        else:
+            w = urwid.CheckBox("x", on_state_change=cb, user_data=ud) if given else urwid.CheckBox("x", on_state_change=cb)
+    else:
+        first = urwid.RadioButton(group, "first")  # takes "first True"
+        if c["positional"]:
+            w = urwid.RadioButton(group, "x", "first True", cb, ud) if given else urwid.RadioButton(group, "x", "first True", cb)
+        else:
+            w = urwid.RadioButton(group, "x", on_state_change=cb, user_data=ud) if given else urwid.RadioButton(group, "x", on_state_change=cb)
+    if log:
+        return f"the constructor itself called a handler: {log!r}"
+    urwid.connect_signal(w, name, later)
+
+    def emit(k):
+        """one emit of the signal through the widget's own code; -> the emitted arguments"""
+        if wn == "button":
+            if (c["emit"] + k) % 3 == 0:
+                w.keypress((10,), "enter")
+            elif (c["emit"] + k) % 3 == 1:
+                w.mouse_event((10,), "mouse press", 1, 1, 0, True)
+            else:
+                w.keypress((10,), " ")
+            return (w,)
+        new = not w.state
+        if wn == "radio" and not new:
+            # a radio button is switched off by switching another one of its group on
+            if (c["emit"] + k) % 3 == 0:
+                first.set_state(True)
+            elif (c["emit"] + k) % 3 == 1:
+                first.keypress((10,), " ")
+            else:
+                first.toggle_state()
+            return (w, False)
+        if (c["emit"] + k) % 3 == 0:
+            w.set_state(new)
+        elif (c["emit"] + k) % 3 == 1:
+            w.keypress((10,), " ")
+        else:
+            w.toggle_state()
+        return (w, new)
+
+    def same(got, want):
+        return len(got) == len(want) and all(t == u and len(a) == len(b) and all(x is y for x, y in zip(a, b)) for (t, a), (u, b) in zip(got, want))
+
+    def show(calls):
+        return [(t, [repr(x)[:24] for x in a]) for t, a in calls]
+
+    connected = c["callback"]
+    for k in range(2):
+        del log[:]
+        em = emit(k)
+        want = ([("cb", (*em, ud) if has_ud else em)] if connected else []) + [("later", em)]
+        if not same(log, want):
+            return f"emit {k}: calls {show(log)}, the documentation promises {show(want)}"
+    if not c["callback"]:
+        return None
+    d = c["disconnect"]
+    if d == "same":
+        urwid.disconnect_signal(w, name, handler, ud) if given else urwid.disconnect_signal(w, name, handler)
+        connected = False
+    elif d == "none":
+        urwid.disconnect_signal(w, name, handler)
+        connected = False
+    elif d == "with-None":
+        urwid.disconnect_signal(w, name, handler, None)
+        connected = False
+    else:
+        urwid.disconnect_signal(w, name, handler)  # connected WITH a user_data: these are not its arguments
+    for k in range(2, 4):
+        del log[:]
+        em = emit(k)
+        want = ([("cb", (*em, ud))] if connected else []) + [("later", em)]
+        if not same(log, want):
+            return (f"emit {k} after disconnect_signal(widget, {name!r}, callback{', user_data' if d == 'same' and given else ''}): calls {show(log)}, "
+                    f"expected {show(want)}")
+    return None
+
+
+# ----------------------------------------------------------------------------------------------
 
 
 _N = [0]
@@ -1296,8 +1424,8 @@ def run(tier="quick", seed=0):
 
             # 10. connections made and dropped by the library itself
             al9 = setter_alphabet()
-            c9 = Check("C14/library-setter-connections", "ListBox.body = walker (empty / non-empty SimpleListWalker and SimpleFocusListWalker, plain lists, a walker without the signal; two list boxes that may share a walker; switched away and back; walkers filled and emptied in between) and MainLoop.start()/stop(): after every operation the library's own handler is called exactly once per emit of the object it currently listens to and never by one it was switched away from", True,
-                       f"ListBox: histories of <= {3 if quick else 4} operations (at least one assignment) over a {len(al9)}-letter alphabet x 3 initial bodies, + 5 probing emits; MainLoop: histories of <= {4 if quick else 6} start/stop/emit operations, 2 loops on 1 or 2 screens")
+            c9 = Check("C14/library-setter-connections", "ListBox.body = walker (empty / non-empty SimpleListWalker and SimpleFocusListWalker, plain lists, a walker without the signal; two list boxes that may share a walker; switched away and back; walkers filled and emptied in between) and MainLoop.start()/stop(): after every operation the library's own handler is called exactly once per emit of the object it currently listens to and never by one it was switched away from; Button(on_press=, user_data=) / CheckBox / RadioButton(on_state_change=, user_data=): every emit made by the widget's own code (keys, mouse, set_state / toggle_state, a radio group switching a button off) calls the constructor's callback exactly once, before a later handler, with (widget, [new state,] user_data) for every user_data but None and (widget, [new state]) for None / absent, never during construction, never again after the documented disconnect_signal(widget, name, callback, user_data), still after a disconnect with other arguments", True,
+                       f"ListBox: histories of <= {3 if quick else 4} operations (at least one assignment) over a {len(al9)}-letter alphabet x 3 initial bodies, + 5 probing emits; MainLoop: histories of <= {4 if quick else 6} start/stop/emit operations, 2 loops on 1 or 2 screens; constructors: 3 widgets x user_data in (absent, None, 0, '', False, (), 0.0, [], 1, 'x', [1]) x keyword / positional x 3 rotations of the emitting operations x disconnect (same arguments / without the user_data / for None and absent: bare and explicit None) + no callback given; 2 emits before and 2 after the disconnect")
             for c in setter_histories(quick):
                 try:
                     why = run_setter_history(c)
@@ -1310,6 +1438,12 @@ def run(tier="quick", seed=0):
                 except Exception as e:  # noqa: BLE001
                     why = f"raised {type(e).__name__}: {e}"
                 c9.case(repr(c), why is None, {"why": why, "mainloop_history": c}, True, c)
+            for c in ctor_wiring_cases():
+                try:
+                    why = run_ctor_wiring(c)
+                except Exception as e:  # noqa: BLE001
+                    why = f"raised {type(e).__name__}: {e}"
+                c9.case(repr(c), why is None, {"why": why, "ctor_wiring": c}, True, c)
             out.append(c9.result())
     finally:
         gc.unfreeze()
@@ -1351,6 +1485,12 @@ def replay(check_name, case):
                 else:
                     why = found.get("foreign-name-accepted") or found.get("delivery")
                 return {"outcome": "confirmed" if why else "not-reproduced", "detail": {"why": why, "all": found}}
+            if "ctor_wiring" in case:
+                try:
+                    why = run_ctor_wiring(case["ctor_wiring"])
+                except Exception as e:  # noqa: BLE001
+                    why = f"raised {type(e).__name__}: {e}"
+                return {"outcome": "confirmed" if why else "not-reproduced", "detail": {"why": why}}
             if "setter_history" in case or "mainloop_history" in case:
                 try:
                     why = run_setter_history(case["setter_history"]) if "setter_history" in case else run_mainloop_history(case["mainloop_history"])
